@@ -271,6 +271,9 @@ bool updateUnitMultiplier(const UnitsPtr &units, int direction, double &multipli
             }
         }
         multiplier += localMultiplier * direction;
+    } else if (isStandardUnit(units)) {
+        // A units without children that carries the name of a standard unit (e.g. "gram", "litre") has that unit's scale.
+        multiplier += standardMultiplierList.at(units->name()) * direction;
     }
 
     return true;
@@ -610,7 +613,7 @@ void updateUnitsMap(const UnitsPtr &units, UnitsMap &unitsMap, double exp = 1.0)
     } else if (units->isImport()) {
         auto importSource = units->importSource();
         auto importedUnits = importSource->model()->units(units->importReference());
-        updateUnitsMap(importedUnits, unitsMap);
+        updateUnitsMap(importedUnits, unitsMap, exp);
     } else {
         for (size_t i = 0; i < units->unitCount(); ++i) {
             std::string ref;
